@@ -10,7 +10,9 @@ RULE = ("EXHAUSTIVE over the mass table of /repo: for every tolerance in {0.01, 
         "order and the masses 1e-6 on either side of it; masses below / above the table (negative, 0, min-tol-1e-6, "
         "max+tol+1e-6, 1000, 1700, 1e6); lists of masses (all good / one bad); the same masses through the real "
         "load_lmpdat (data text with and without label comments, partial comments, several types, default and explicit "
-        "guess_atol; also data texts with 10…30 atom types, every type used, atoms in shuffled type order) and the "
+        "guess_atol; also data texts with 10…30 atom types, every type used, atoms in shuffled type order; Masses lines "
+        "listed in ANY order — shuffled, reversed, rotated, one pair swapped, 2…30 types — each line binding its mass and "
+        "label to its type id) and the "
         "save_lmpdat -> load_lmpdat cycle for every element of the table (singly, in random groups, in structures with "
         "12…40 types and with all 117 elements at once), and for structures ASSEMBLED from pieces that bring their own atom "
         "types of differing masses (extend with automatic type extension, extend_types + extend(offsets), two extensions, "
@@ -158,12 +160,12 @@ def real_guess(ms, tol, default=False, style="kw"):
         return _exc(e)
 
 
-def lmp_text(ms, comments, types, atom_format="full"):
+def lmp_text(ms, comments, types, atom_format="full", order=None):
     """a small LAMMPS data text: masses written with repr (so that float(text) is the same double)"""
     out = ["verif C14", "", "%d atoms" % len(types), "0 bonds", "", "%d atom types" % len(ms), "",
            " 0.0 10.0 xlo xhi", " 0.0 11.0 ylo yhi", " 0.0 12.0 zlo zhi", "", "Masses", ""]
-    for i, m in enumerate(ms):
-        out.append(" %d %s%s" % (i + 1, repr(float(m)), "" if comments[i] is None else "   # " + comments[i]))
+    for i in (order if order is not None else range(len(ms))):     # `order`: the Masses lines in this order of type ids
+        out.append(" %d %s%s" % (i + 1, repr(float(ms[i])), "" if comments[i] is None else "   # " + comments[i]))
     out += ["", "Atoms", ""]
     for i, t in enumerate(types):
         if atom_format == "atomic":
@@ -173,10 +175,10 @@ def lmp_text(ms, comments, types, atom_format="full"):
     return "\n".join(out) + "\n"
 
 
-def real_load(ms, tol, comments, types, default=False, via_load=False, atom_format=None):
-    """atom_format None = the keyword is not passed (default "full")"""
+def real_load(ms, tol, comments, types, default=False, via_load=False, atom_format=None, mass_order=None):
+    """atom_format None = the keyword is not passed (default "full"); mass_order: order of the Masses lines in the file"""
     from mofun import Atoms
-    text = lmp_text(ms, comments, types, atom_format or "full")
+    text = lmp_text(ms, comments, types, atom_format or "full", mass_order)
     try:
         with core.quiet():
             f = io.StringIO(text)
@@ -480,7 +482,7 @@ def do_call(T, call):
         return r, oracle_list(T, fms, ftol, r)
     types = call.get("types", [0])
     r = real_load(ms, tol_value(call), call["comments"], types, default=call.get("default", False),
-                  via_load=call.get("via_load", False), atom_format=call.get("atom_format"))
+                  via_load=call.get("via_load", False), atom_format=call.get("atom_format"), mass_order=call.get("mass_order"))
     bad = oracle_load(T, fms, ftol, call["comments"], r)
     if not bad and "ok" in r and (r["atom_elements"] != [r["ok"]["elements"][t] for t in types] or r["types"] != list(types)):
         bad = "per-atom elements / types do not follow the type table"
@@ -528,6 +530,13 @@ def separated(T, tol):
     return {s for s, M in T if all(abs(M - M2) >= 2 * tol for s2, M2 in T if s2 != s)}
 
 
+def distinguishable(T):
+    """elements whose mass differs from EVERY other table mass by more than 1e-5: the rounding of a written mass (%10.6f,
+    at most 5e-7) cannot make another element as near, so under the nearest rule they must survive a write/read cycle at
+    any tolerance above the rounding.  (On the present table: everything except Cm and Bk, whose masses are equal.)"""
+    return {s for s, M in T if all(abs(M - M2) > Fraction(1, 10 ** 5) for s2, M2 in T if s2 != s)}
+
+
 def run(ctx, oracle_only=False):
     ctx.rule = RULE
     rng = ctx.rng
@@ -542,7 +551,7 @@ def run(ctx, oracle_only=False):
         return any((float(m) not in exact) for m in ms) or any(float(m) == float(masses[s]) for m in ms for s in ooo)
 
     seen = {}      # mass -> earlier calls of this process that involved it (what a replay has to run first)
-    CALL_KEYS = ("op", "masses", "tol", "tol_type", "default", "style", "comments", "types", "via_load", "atom_format")
+    CALL_KEYS = ("op", "masses", "tol", "tol_type", "default", "style", "comments", "types", "via_load", "atom_format", "mass_order")
 
     def earlier(call):
         out = []
@@ -583,6 +592,15 @@ def run(ctx, oracle_only=False):
             c.update(comments=[None] * len(ms), types=list(range(len(ms))))
         c.update(kw)
         return c
+
+    # corpus first: the stored minimal replays of past findings (corpus/C14/*.json)
+    import glob
+    import json
+    import os
+    for f in sorted(glob.glob(os.path.join(core.VERIF, "corpus", "C14", "*.json"))):
+        ci = json.load(open(f))["input"]
+        if ci.get("op") in ("guess", "load_elements"):
+            call_case({k: ci[k] for k in CALL_KEYS if k in ci}, ci.get("history", []), "corpus:" + os.path.basename(f)[:-5])
 
     # 0. the shared mass table must be what the source says — before anything ran, after constructor calls with unknown /
     #    odd element names (which must not leave anything behind), and after the whole run; then small masses through
@@ -744,8 +762,42 @@ def run(ctx, oracle_only=False):
             call_case(call, hist, "sequence-%s" % ("large-first" if k % 2 == 0 else "small-first"))
             hist.append(call)
 
+    # 3d. the Masses lines in ANY order (each line carries its type id): 2…30 types — mostly ten or more, so that the order
+    #     of the ids as strings differs from their order as integers —, shuffled / reversed / rotated / one pair swapped,
+    #     with all / no / partial label comments, one bad mass now and then; masses and `comments` below are in TYPE order
+    #     (what the oracle judges), `mass_order` is the order of the lines in the file (what the model is given)
+    for k in range(ctx.n(60, 600)):
+        n = rng.randint(10, 30) if k % 4 else rng.randint(2, 9)
+        if k == 0:
+            n = 2
+        els = rng.sample(syms, n)
+        tol = rng.choice([0.1, 0.1, 0.1, 0.01, 0.5])
+        ms = [float(masses[e]) + rng.choice([0.0, 0.0, tol / 2, -tol / 2]) for e in els]
+        if k % 6 == 5:
+            ms[rng.randrange(n)] = rng.choice([13.0, 2.5, 1000.0])
+        style = ["all", "none", "partial"][k % 3]
+        comments = [("%s_t%d" % (els[i], i + 1)) if (style == "all" or (style == "partial" and rng.random() < 0.6)) else None
+                    for i in range(n)]
+        order = list(range(n))
+        how = ["shuffled", "reversed", "rotated", "swapped"][k % 4]
+        if how == "shuffled":
+            rng.shuffle(order)
+        elif how == "reversed":
+            order.reverse()
+        elif how == "rotated":
+            r = rng.randint(1, n - 1)
+            order = order[r:] + order[:r]
+        else:
+            i, j = rng.sample(range(n), 2)
+            order[i], order[j] = order[j], order[i]
+        types = list(range(n)) + [rng.randrange(n) for _ in range(rng.randint(0, 6))]
+        rng.shuffle(types)
+        call_case(mk("load_elements", ms, tol, comments=comments, types=types, mass_order=order,
+                     default=(tol == 0.1 and k % 2 == 0), via_load=k % 4 == 1, atom_format=[None, "full", "atomic"][k % 3]),
+                  [], "masses-order-" + how)
+
     # 4. write/read cycle: every element alone, random small groups, and structures with 12…40 atom types
-    sep = separated(T, Fraction(1, 10))
+    sep = distinguishable(T)
     groups = [[s] for s in syms] + [rng.sample(syms, rng.randint(2, 6)) for _ in range(ctx.n(60, 1000))]
     groups += [rng.sample(syms, rng.randint(12, 40)) for _ in range(ctx.n(25, 300))] + [list(syms)]
     for els in groups:
@@ -756,7 +808,7 @@ def run(ctx, oracle_only=False):
         bad = oracle_roundtrip(T, sep, els, r)
         if bad:
             ctx.fail(bad, inp, observed={k: v for k, v in r.items() if k != "text"},
-                     required="every element whose mass is at least 0.2 away from all other table masses comes back unchanged")
+                     required="every element whose mass differs from all other table masses comes back unchanged")
         elif "ok" in r:
             # tie: the masses actually written, through the model
             ms, cs = masses_section(r["text"])
@@ -788,7 +840,7 @@ def run(ctx, oracle_only=False):
         bad = oracle_assembled(T, sep, rec, r)
         if bad:
             ctx.fail(bad, rec, observed={k2: v for k2, v in r.items() if k2 != "text"},
-                     required="every atom whose element has a mass at least 0.2 away from all other table masses has the same element after save_lmpdat -> load_lmpdat")
+                     required="every atom whose element has a mass different from all other table masses has the same element after save_lmpdat -> load_lmpdat")
         elif "ok" in r:
             ms, cs = masses_section(r["text"])
             ops.append({"op": "load_elements", "masses": [core.q(m) for m in ms], "tol": core.q(0.1), "comments": cs,
@@ -828,7 +880,7 @@ def run(ctx, oracle_only=False):
         bad = oracle_cycle(T, sep, rec, r)
         if bad:
             ctx.fail(bad, rec, observed={k2: v for k2, v in r.items() if k2 != "text"},
-                     required="every atom whose element has a mass at least 0.2 away from all other table masses has the same element after the write/read cycle, through every entry point")
+                     required="every atom whose element has a mass different from all other table masses has the same element after the write/read cycle, through every entry point")
         elif "ok" in r:
             ms, cs = masses_section(r["text"])
             ops.append({"op": "load_elements", "masses": [core.q(m) for m in ms], "tol": core.q(0.1), "comments": cs, "kind": "cycle"})
@@ -841,11 +893,16 @@ def run(ctx, oracle_only=False):
         ctx.fail(bad, {"op": "table-check", "stage": "end", "constructs": []},
                  required="ATOMIC_MASSES equals the source table after the whole run")
     ctx.exhaustive = True
-    ctx.notes.append("elements not separated by 2*0.1 from all others (excluded from the 'survives unchanged' demand): %s"
+    ctx.notes.append("elements whose mass coincides (within 1e-5) with another element's (excluded from the 'survives unchanged' demand): %s"
                      % sorted(set(syms) - sep))
     if oracle_only:
         return
-    wire = [{k: v for k, v in o.items() if k in ("op", "masses", "tol", "comments")} for o in ops]
+    def to_wire(o):
+        if o.get("mass_order") is not None:      # the section as it stands in the file: lines in file order, each with its id
+            return {"op": "load_masses", "tol": o["tol"],
+                    "lines": [{"id": i + 1, "mass": o["masses"][i], "comment": o["comments"][i]} for i in o["mass_order"]]}
+        return {k: v for k, v in o.items() if k in ("op", "masses", "tol", "comments")}
+    wire = [to_wire(o) for o in ops]
     models = ctx.lean.run(wire)
     for inp, r, m, amb in zip(ops, impls, models, skip):
         if amb:
@@ -889,11 +946,11 @@ def replay(ctx, rec):
     inp = rec["input"]
     T = table()
     if inp["op"] == "cycle":
-        return oracle_cycle(T, separated(T, Fraction(1, 10)), inp, real_cycle(inp)) is None
+        return oracle_cycle(T, distinguishable(T), inp, real_cycle(inp)) is None
     if inp["op"] == "assembled":
-        return oracle_assembled(T, separated(T, Fraction(1, 10)), inp, real_assembled(inp)) is None
+        return oracle_assembled(T, distinguishable(T), inp, real_assembled(inp)) is None
     if inp["op"] == "roundtrip":
-        return oracle_roundtrip(T, separated(T, Fraction(1, 10)), inp["elements"], real_roundtrip(inp["elements"])) is None
+        return oracle_roundtrip(T, distinguishable(T), inp["elements"], real_roundtrip(inp["elements"])) is None
     if inp["op"] in ("table-check", "construct"):
         return do_call(T, inp)[1] is None
     if "history" in inp:
@@ -904,5 +961,6 @@ def replay(ctx, rec):
     tol = float(Fraction(inp["tol"]))
     if inp["op"] == "guess":
         return oracle_list(T, [fr(m) for m in ms], fr(tol), real_guess(ms, tol, default=inp.get("default", False))) is None
-    r = real_load(ms, tol, inp["comments"], inp.get("types", [0]), default=inp.get("default", False), via_load=inp.get("via_load", False))
+    r = real_load(ms, tol, inp["comments"], inp.get("types", [0]), default=inp.get("default", False), via_load=inp.get("via_load", False),
+                  atom_format=inp.get("atom_format"), mass_order=inp.get("mass_order"))
     return oracle_load(T, [fr(m) for m in ms], fr(tol), inp["comments"], r) is None
